@@ -408,6 +408,10 @@ Definition executed (r : result) : list xcall := filter x_ran (processed r).
 Definition outputs_for (stateless : bool) (xs : list xcall) : list item :=
   map (fun x => out_item stateless (c_id (x_call x)) (x_out x)) xs.
 
+(* the call ids answered by a request input, in order *)
+Definition out_ids (l : list item) : list str :=
+  flat_map (fun i => match i with IOut _ cid _ => [cid] | _ => [] end) l.
+
 Fixpoint prefix_of {A} (eqb : A -> A -> bool) (a b : list A) : bool :=
   match a, b with
   | [], _ => true
